@@ -304,6 +304,16 @@ func namedToValues(args []driver.NamedValue) ([]driver.Value, error) {
 // direct runs a text-protocol statement (Exec/Query without prepare).
 func (c *conn) direct(ctx context.Context, kind, query string, dargs []driver.Value) ([]*result, error) {
 	s := c.srv
+	// a fault with action "call": its callback runs after the statement, once the server lock is released
+	defer func() {
+		s.mu.Lock()
+		fn, pending := s.callFn, s.pendingCall
+		s.pendingCall = false
+		s.mu.Unlock()
+		if pending && fn != nil {
+			fn()
+		}
+	}()
 	s.mu.Lock()
 	defer s.mu.Unlock()
 	if c.closed {
@@ -338,7 +348,17 @@ func (c *conn) journalled(kind, query string, args []Value, f func() ([]*result,
 	var rs []*result
 	var err error
 	flt := s.checkFault(kind, query, c.tag)
-	if flt != nil && flt.Action != "after" {
+	if flt != nil && (flt.Action == "breakrows" || flt.Action == "call") {
+		rs, err = f()
+		if err == nil {
+			e.Injected = true
+			if flt.Action == "call" {
+				s.pendingCall = true
+			} else if n := len(rs); n > 0 && rs[n-1].isQuery {
+				rs[n-1].breakSet, rs[n-1].breakAfter, rs[n-1].breakErr = true, flt.Rows, myErr(flt.ErrNo, "fakedb: result set broken off")
+			}
+		}
+	} else if flt != nil && flt.Action != "after" {
 		e.Injected = true
 		if flt.Action == "drop" {
 			c.die()
@@ -797,6 +817,9 @@ func (r *rows) Close() error { r.pos = 1 << 30; return nil }
 
 func (r *rows) Next(dest []driver.Value) error {
 	set := r.sets[r.cur]
+	if set.breakSet && (r.pos >= set.breakAfter || r.pos >= len(set.rows)) {
+		return set.breakErr // also when the set is shorter: the stream never ends cleanly
+	}
 	if r.pos >= len(set.rows) {
 		return io.EOF
 	}
